@@ -215,6 +215,25 @@ func mutations() []mutation {
 		{"tunnel-domain", "accept", "domain tunnel address", func(d doc, _ string) { srv(d, 3)["tunnelRemoteAddress"] = "tunnel.c18.test:5353" }},
 		{"tunnel-ip-target-only", "accept", "target-only with an IP address", func(d doc, _ string) { srv(d, 3)["tunnelUDPTargetOnly"] = true }},
 		{"no-servers", "reject", "nothing to start", func(d doc, _ string) { d["servers"] = []any{} }},
+		// referenced set files that do not parse
+		{"prefixset-file-garbage", "reject", "prefix set file must parse", func(d doc, dir string) {
+			p := filepath.Join(dir, "ps-bad.txt")
+			os.WriteFile(p, []byte("10.0.0.0/8\nnot-a-prefix\n"), 0o644)
+			router(d)["prefixSets"].([]any)[0].(doc)["path"] = p
+		}},
+		{"prefixset-file-missing", "reject", "prefix set file must exist", func(d doc, dir string) {
+			router(d)["prefixSets"].([]any)[0].(doc)["path"] = filepath.Join(dir, "nope.txt")
+		}},
+		{"domainset-file-garbage", "reject", "domain set file must parse", func(d doc, dir string) {
+			p := filepath.Join(dir, "ds-bad.txt")
+			os.WriteFile(p, []byte("domain:ok.example\nregexp:(\n"), 0o644)
+			router(d)["domainSets"].([]any)[0].(doc)["path"] = p
+		}},
+		{"domainset-file-unknown-rule", "reject", "domain set file must parse", func(d doc, dir string) {
+			p := filepath.Join(dir, "ds-bad2.txt")
+			os.WriteFile(p, []byte("bogus:ok.example\n"), 0o644)
+			router(d)["domainSets"].([]any)[0].(doc)["path"] = p
+		}},
 	}
 	return ms
 }
